@@ -38,7 +38,7 @@ package rosmar
 //@   ensures [C04,C10,C12,C15:$fn.lastcas] r2 != r ==> bucketLastCas == newCas && collLast(c.id) == newCas
 //@   ensures [C04,C10:$fn.mark-never-lowered] old(bucketLastCas) <= old(hlc.highestTime) ==> bucketLastCas >= old(bucketLastCas)
 //@   ensures [C17:$fn.rev]             r2 != r ==> r2.rev == nextrev(r)
-//@   ensures [C08,C17:$fn.event]           $err == nil && r2 != r ==> lenlist(posted) == 1 && posted[0] == eventOf(key, r2) && postsAfterCommit()
+//@   ensures [C05,C08,C17:$fn.event]           $err == nil && r2 != r ==> lenlist(posted) == 1 && posted[0] == eventOf(key, r2) && postsAfterCommit()
 //@   ensures [C08:$fn.noevent]         r2 == r ==> lenlist(posted) == 0
 //@   ensures [C20:$fn.unlocked]        any: nolocks()
 //@ end
@@ -291,7 +291,7 @@ package rosmar
 //@   ensures [C02:writeWithMeta.cas-rejected]    oldCas != cur ==> result != nil && db == old(db) && (iscasmismatch(result) || isdberr(result) || isclosed(result))
 //@   ensures [C01,C05,C07,C14,C17:writeWithMeta.stored] result == nil ==> sameDoc(r2, Row{present: true, rowid: 0, value: body, cas: newCas, exp: absexp(exp, now), xattrs: xattrs, isJSON: b2i(isJSON), tombstone: b2i(isDeletion), rev: nextrev(r)})
 //@   ensures [C08,C15:writeWithMeta.posts-in-commit-order] count("post") == 1 ==> onecritical("commit", "post", "utex")
-//@   ensures [C08,C17:writeWithMeta.event]           result == nil ==> lenlist(posted) == 1 && posted[0] == eventOf(key, r2) && postsAfterCommit()
+//@   ensures [C05,C08,C17:writeWithMeta.event]           result == nil ==> lenlist(posted) == 1 && posted[0] == eventOf(key, r2) && postsAfterCommit()
 //@   ensures [C12:writeWithMeta.lastcas]         result == nil ==> collLast(c.id) >= newCas
 //@   ensures [C04,C10:writeWithMeta.mark-never-lowered] bucketLastCas >= old(bucketLastCas) && forall i: Int :: collLast(i) >= old(collLast(i))
 //@   ensures [C20:writeWithMeta.unlocked]        any: nolocks()
@@ -661,7 +661,7 @@ package rosmar
 //@   ensures [C03,C04,C07,C12,C15:wwx.cas-fresh]      err == nil ==> r2.cas == newCas && casOut == newCas && newCas > old(hlc.highestTime) && casDrawnInTxn()
 //@   ensures [C04,C10,C12:wwx.lastcas]    err == nil ==> bucketLastCas == newCas && collLast(c.id) == newCas
 //@   ensures [C17:wwx.rev]                err == nil ==> r2.rev == nextrev(r)
-//@   ensures [C08,C17:wwx.event]              err == nil ==> lenlist(posted) == 1 && posted[0] == eventOf(key, r2) && postsAfterCommit()
+//@   ensures [C05,C08,C17:wwx.event]              err == nil ==> lenlist(posted) == 1 && posted[0] == eventOf(key, r2) && postsAfterCommit()
 //@   ensures [C02,C03:wwx.cas-necessary]      err == nil && ifCas != nil ==> *ifCas == cur
 //@   ensures [C02,C03:wwx.cas-rejected]       ifCas != nil && *ifCas != cur ==> err != nil && db == old(db)
 //@   ensures [C06:wwx.insert-only-absent] err == nil && ifCas != nil && *ifCas == 0 ==> !r.present
